@@ -156,3 +156,7 @@ def distribution(cases, impl, model):
         d["none"] += il.count("none")
         d["err"] += il.count("E:")
     return d
+
+
+def tie_covered(case):
+    return case in _truth
